@@ -25,6 +25,7 @@ EXPLANATION = (
     "partial binds model_cls, score_func, repetitions in the callee's parameter order. _run_model_for_search builds a "
     "fresh model per repetition, steps under the strict guard, appends one score_func(model) per repetition and adds "
     "only the 'records' key.")
+EXPLANATION += (" Premise: C07's Model.__init__ seeding rules.")
 ASSUMPTIONS = ["numerical results of min/max/sum/statistics are trusted", "Pool.imap / map preserve input order",
                "ties and NaN beyond strictness are not decided"]
 
@@ -51,6 +52,11 @@ def run(cx: Cx):
     check_declaration(cx)
     from .common import check_no_stateful_memo
     check_no_stateful_memo(cx)
+    # a listed seed is the seed the model runs with: Model.__init__ seeds its generator from the argument as given (C07's rule) - a
+    # constructor that replaces falsy seeds scores `seed=0` with a different, unlisted seed in every repetition
+    from .common import include_premises
+    include_premises(cx, ['C07'], 'the records of a parameter set are those of the listed parameters: a listed seed is used as given',
+                     only=lambda o: (o.function or '').endswith('Model.__init__'))
 
 
 # ------------------------------------------------------------------------------------------------ R-EXH
